@@ -33,6 +33,12 @@ SelectedOK(p, r) ==
     [] r.kind = "GetMdDescription" -> Got(r, "D") = PresentD(p)
     [] r.kind = "GetContextStates" -> Got(r, "C") = PresentC(p)
     [] r.kind = "GetMdState[m1]" -> Got(r, "S") = (PresentS(p) \cap {"m1"})
+    \* requested descriptors: what is returned beyond the requested ones is the service's rule (the code returns the whole
+    \* description if any requested handle exists); version consistency demands that the requested descriptors that exist
+    \* at the stated version are there, and that nothing is returned if none of them exists at that version
+    [] r.kind = "GetMdDescription[req]" ->
+         LET req == Rng(r.requested) \cap PresentD(p)
+         IN /\ Got(r, "D") \subseteq PresentD(p) /\ req \subseteq Got(r, "D") /\ (req = {} => Got(r, "D") = {})
     [] OTHER -> TRUE
 
 NoDupEntries(r) == \A i, j \in DOMAIN r.entries : (i # j) => (r.entries[i].k # r.entries[j].k \/ r.entries[i].h # r.entries[j].h)
